@@ -25,7 +25,7 @@ CLAIMS = {
    ref="4/C10"),
  "C15": dict(
    text="Bounded symbolic execution of the real runner.Run and Generator.Generate with every pipeline stage summarised by an arbitrary result/error and the file system, stdout and formatters as effect-recording nondeterministic stubs: for every flag valuation and every subset of stage failures the effect trace contains only the log open (iff -log, first) and at most one whole-file write of the formatted bytes to the output path, iff not dry-run and everything succeeded, as the last file-system effect. Counterexamples are replayed end-to-end with the built binary (directory snapshot before/after).",
-   note=TB+"Assumes the stage summaries (stages have no file-system effect of their own; GOCACHE writes by go list and atomicity of os.WriteFile are outside).",
+   note=TB+"C12LoaderHook adds: an output path naming the input file itself (os.SameFile symbolic: any spelling, hard or symbolic link) is rejected by NewParser, i.e. before any write. Assumes the stage summaries (stages have no file-system effect of their own; GOCACHE writes by go list and atomicity of os.WriteFile are outside).",
    technique="SMT-guided symbolic execution of go/ssa with effect-trace stubs; end-to-end replay of models with the built binary",
    ref="4/C15"),
  "C18": dict(
@@ -40,12 +40,12 @@ CLAIMS = {
    ref="4/C19"),
  "C11": dict(
    text="Bounded symbolic execution of the text kernels that carry the setup file over: marker substitution (Generate/generateContent with symbolic surrounding text, 1..2 blocks in either order, 0..2 functions each, two marker pairs) and notation/directive extraction (ExtractMatchComments/MatchComments/ToTextList over groups of 0..5 comments with symbolic texts and arbitrary match outcomes). The solver decides every branch; results are compared with reference equations.",
-   note=TB+"NOT decided (DESIGN.md section 5): what go/printer prints, the marker-to-marker regexp cut of GenerateBaseCode, imports.Process pruning - library internals outside the encoder's reach.",
+   note=TB+"Also: C03MarkerLayout (marker planting on symbolic positions), C11Directives (the real compiled directive/notation regexps simulated on symbolic comment text), C11DocForwarding and C11WholeFile (mode T: the REAL runner.Run on skeleton whole with go/printer run natively on the concrete tree; the whole generated text is compared clause by clause for every menu combination). NOT decided: imports.Process pruning and go/format (environment), go/printer outside the layouts of C03MarkerLayout and skeleton whole.",
    technique="SMT-guided symbolic execution of go/ssa over symbolic byte-vector / SMT strings; reference equations",
    ref="4/C11"),
  "C13": dict(
    text="Bounded symbolic execution with map iteration order as an explored dimension: NewImportNames/LookupName/LookupPath over arbitrary valid import tables under every iteration order at every range site, with a cross-path obligation (solver query per pair of jointly satisfiable paths) that all lookup results agree; marker independence of generateContent (two marker sets, equal content); SSA inventory of every map range, goroutine, select, random/time/environment call in convergen's packages against a reviewed allow-list (a new site is inconclusive, never silently accepted). Order dependences are replayed natively by repetition.",
-   note=TB+"NOT decided: package/file order delivered by go/packages, go/printer, the regexp cut on text containing the random marker, stderr interleaving.",
+   note=TB+"Also: C18ParseArgs (the designated output path is the same function of the input path under every spelling of its directory part), C11WholeFile (no random marker survives, incl. a converter interface without methods), and the corpus is generated twice in fresh processes (byte-identical output and diagnostics; end-to-end validation). NOT decided: package/file order delivered by go/packages, stderr interleaving.",
    technique="SMT-guided symbolic execution of go/ssa with map-order forking and cross-path (2-safety) solver queries; SSA inventory; native replay by repetition",
    ref="4/C13"),
  "C17": dict(
@@ -85,17 +85,17 @@ CLAIMS = {
    ref="4/C01"),
  "C16": dict(
    text="Mode T: the slice strategy decided by the real sliceToSlice for every element-type pair of the type matrix with :typecast symbolic (fresh-storage copy iff elements assignable, converting loop iff opted in and convertible, else the general ladder), each emitted function type-checked (copy() only on identical element types). Run-time aliasing/nil behaviour of the generated code: mode G when registered.",
-   note=TB+"Programs: skeleton types.",
+   note=TB+"Programs: skeleton types; corpus case slices (run-time behaviour of the generated loops); C09Scoping for 'only under :typecast' across methods and interfaces.",
    technique="symbolic execution of go/ssa with native go/types bridge; reference matcher; Go type checker as judge",
    ref="4/C16"),
  "C02": dict(
    text="Symbolic execution of the GENERATED code: the tool built from the current tree is run on a hand-written corpus at check time, the emitted functions are executed symbolically (operands arbitrary: symbolic scalars, nil-ness of nested pointers, slice lengths 0..2/nil) next to independent hand-written reference functions; the solver decides equality of results, final operand states, returned errors and user-function call traces for all operand values, and absence of Go run-time panics; sampled paths are replayed natively (go test on the real generated code) to validate the encoding.",
-   note=TB+"Programs: the corpus (17 generated functions); integer wrap-around and float arithmetic are not interpreted (conversions uninterpreted on both sides); panics inside user code are outside.",
+   note=TB+"Programs: the corpus (5 cases, 40 generated functions); integer wrap-around and float arithmetic are not interpreted (conversions uninterpreted on both sides); panics inside user code are outside.",
    technique="symbolic execution of the tool's generated code (go/ssa) against reference functions, SMT equality of symbolic results, native replay",
    ref="4/C02"),
  "C12": dict(
    text="Bounded symbolic execution of the code that separates a run from whatever is at the output path: NewParser's ParseFile hook with the loader, file system and Go parser as symbolic environment (the output file's bytes are arbitrary and are proven never to reach the parser; the result does not depend on the output path's state nor on the loaded package's error lists), plus the write discipline of Run/Generate (one whole-file WriteFile after everything succeeded). Together: the only channel from the bytes at the output path into a run is Stat/SameFile. Counterexamples and one validation run are replayed end to end with the built binary (stale, longer, truncated at many points, broken output; twice in a row; -out = input).",
-   note=TB+"Assumed, not decided: go list / packages.Load behave the same whatever same-package bytes the output path holds (external process).",
+   note=TB+"The loader overlay that blanks an existing output file is checked under five spellings of the output path (relative, ./, dir/../dir, absolute, another directory); a read of the old content (os.ReadFile, arbitrary bytes) must not change the single whole-file write. Assumed, not decided: go list / packages.Load behave the same whatever same-package bytes the output path holds once the overlay is in place (external process; validated end to end incl. absolute -out and a package clause cut inside the name).",
    technique="SMT-guided symbolic execution of go/ssa with symbolic loader/file system/parser; end-to-end regeneration replay with the built binary",
    ref="4/C12"),
  "C03": dict(
